@@ -17,19 +17,23 @@ torch::Tensor solve_policy(torch::Tensor pi_theta, torch::Tensor q, float lambda
 
     auto len = pi_theta.sizes()[0];
 
-    float alpha_min = -std::numeric_limits<float>::infinity();
-    float alpha_max = -std::numeric_limits<float>::infinity();
+    // Search for alpha in double precision: in single precision
+    // q + lambda_n * pi can round to q itself, which lets alpha
+    // collapse onto max(q) and the policy overflow to infinity.
+    double lambda = lambda_n;
+    double alpha_min = -std::numeric_limits<double>::infinity();
+    double alpha_max = -std::numeric_limits<double>::infinity();
     for (int i = 0; i < len; i++) {
-        alpha_min = max(alpha_min, q_a[i] + lambda_n * pi_theta_a[i]);
-        alpha_max = max(alpha_max, q_a[i] + lambda_n);
+        alpha_min = max(alpha_min, (double)q_a[i] + lambda * (double)pi_theta_a[i]);
+        alpha_max = max(alpha_max, (double)q_a[i] + lambda);
     }
 
-    float alpha = (alpha_min + alpha_max)/2;
-    float last_sum = std::numeric_limits<float>::infinity();
+    double alpha = (alpha_min + alpha_max)/2;
+    double last_sum = std::numeric_limits<double>::infinity();
     for (int loops = 0; loops < 32; loops++) {
-        float sum = 0.0;
+        double sum = 0.0;
         for (int i = 0; i < len; i++) {
-            sum += lambda_n * pi_theta_a[i] / (alpha - q_a[i]);
+            sum += lambda * (double)pi_theta_a[i] / (alpha - (double)q_a[i]);
         }
         /*
         printf("c++ i=%d alpha_bounds=%.2f,%.2f alpha=%.2f sigma=%.2f\n",
@@ -39,9 +43,9 @@ torch::Tensor solve_policy(torch::Tensor pi_theta, torch::Tensor q, float lambda
                alpha,
                sum);
         */
-        float error = sum - 1.0;
+        double error = sum - 1.0;
         if (abs(error) <= SIGMA_EPSILON or sum == last_sum) {
-            return lambda_n * pi_theta / (alpha - q);
+            return (lambda * pi_theta.to(torch::kDouble) / (alpha - q.to(torch::kDouble))).to(pi_theta.scalar_type());
         }
         last_sum = sum;
         if (sum > 1) {
